@@ -241,6 +241,27 @@ def fam_lattice(props):
   return _fam(f"F-lattice[{len(props)} props]", prod.n, dec, "{unspecified, specified, animated [1,2)}^5 levels x initial")
 
 
+def fam_anim_pairs():
+  """two animation steps on one element: every combination of present / absent begin and end on each, same or different property"""
+  iv = [(None, None), (F(1), None), (None, F(2)), (F(1), F(2)), (F(3), None), (F(2), F(4))]
+  prod = Product([["region", "p", "span"], iv, iv, [0, 1], [0, 1]])
+
+  def dec(i):
+    lv, (b1, e1), (b2, e2), same, with_end = prod.decode(i)
+    spec, nodes = _chain()
+    c1, c2, _c3 = _three_values("Color")
+    if same:
+      steps = [["Color", b1, e1, c1], ["Color", b2, e2, c2]]
+    else:
+      p2 = "Opacity" if lv == "region" else "FontStyle"
+      steps = [["Color", b1, e1, c1], [p2, b2, e2, _three_values(p2)[1]]]
+    nodes[lv]["an"] = steps
+    if with_end and lv != "region":
+      nodes[lv]["e"] = F(7, 2)
+    return spec
+  return _fam("F-anim-pairs", prod.n, dec, "two animation steps on region / p (begins at 1/2) / span x begin and end present or absent on each x same or different property x element end")
+
+
 # --- (2) font size unit chains ---------------------------------------------------------------------
 
 FS = [None, L(150, "%"), L(2, "em"), L(2, "c"), L(54, "px"), L(10, "rh"), L(5, "rw")]
@@ -354,6 +375,25 @@ def fam_textdecoration():
   return _fam("F-textdecoration", prod.n, dec, "component triples on div / span / nested span")
 
 
+def fam_textdecoration_root():
+  comps = [None, True, False]
+  vals = [None] + [["td", a, b, c] for a in comps for b in comps for c in comps]
+  inits = [None, ["td", None, None, True], ["td", None, None, None], ["td", True, False, None]]
+  prod = Product([vals, inits, [None, ["td", None, True, None]]])
+
+  def dec(i):
+    r, init, sp_ = prod.decode(i)
+    spec, nodes = _chain()
+    if r is not None:
+      nodes["region"].setdefault("st", {})["TextDecoration"] = r
+    if sp_ is not None:
+      nodes["span"].setdefault("st", {})["TextDecoration"] = sp_
+    if init is not None:
+      spec["init"] = [["TextDecoration", init]]
+    return spec
+  return _fam("F-textdecoration-root", prod.n, dec, "component triples (incl. all unspecified) on the region x initial value with unspecified components x span")
+
+
 # --- (6) ruby font size ------------------------------------------------------------------------------
 
 def fam_ruby():
@@ -411,11 +451,13 @@ def plan(tier, seed):
     third = seed % 3
     props = [p for i, p in enumerate(props) if i % 3 == third]
   fams.append(fam_lattice(props))
+  fams.append(fam_anim_pairs())
   fams.append(fam_fontsize())
   fams.append(fam_scalar())
   fams.append(fam_geometry())
   fams.append(fam_geometry_sources())
   fams.append(fam_textdecoration())
+  fams.append(fam_textdecoration_root())
   fams.append(fam_ruby())
   fams.append(fam_emphasis_direction())
   g = c13.fam_grid()
